@@ -19,6 +19,16 @@ def E(x): return Enum(OP + x)
 
 class ResDomain(Domain):
     max_depth = 5
+    # what the integral member of a queue entry holds (roles.infer_resource): 'bound' = the upper bound on the tickets of the
+    # batch, 'count' = the number of requests in the batch.  The two are related by ub_k = bound + sum_{i<=k} count_i; the rows are
+    # evaluated over the 'bound' symbols in both cases: front.count reads as front.ub - bound, back.count as the symbol back.cnt,
+    # and what is stored is translated back where it is judged (RES.8)
+    entry_repr = 'bound'
+
+    def _ub(self, which):
+        if self.entry_repr == 'count':
+            return (Lin.sym('front.ub') - Lin.sym('bound')) if which == 'front' else Lin.sym('back.cnt')
+        return Lin.sym(which + '.ub')
 
     def __init__(self, val):
         self.val = val
@@ -29,10 +39,10 @@ class ResDomain(Domain):
         if len(path) >= 2 and path[-2] in ('@back', '@front'):
             which = path[-2][1:]
             if last == 'type': self.consulted.add(which); return E(self.val[which])
-            if last == 'upperBound': return Lin.sym(which + '.ub')
+            if last == 'upperBound': return self._ub(which)
         if last in ('@back', '@front'):
             which = last[1:]; self.consulted.add(which)
-            return Record({'type': E(self.val[which]), 'upperBound': Lin.sym(which + '.ub')}, tag=which)
+            return Record({'type': E(self.val[which]), 'upperBound': self._ub(which)}, tag=which)
         if last == 'm_activeOp': self.consulted.add('op'); return E(self.val['op'])
         if last == 'm_activeCount': return Lin.sym('cnt')
         if last == 'm_idCounter': return Lin.sym('next')
@@ -107,7 +117,7 @@ class ResDomain(Domain):
         if not rng: return None
         reverse = any(nm in ('rbegin', 'crbegin') for nm in names) or any('reverse' in (a.text() or '') for a in rng)
         def accepts(which):
-            rec = Record({'type': E(self.val[which]), 'upperBound': Lin.sym(which + '.ub')}, tag=which)
+            rec = Record({'type': E(self.val[which]), 'upperBound': self._ub(which)}, tag=which)
             self.consulted.add(which)
             rets = {P_.ret if isinstance(P_.ret, bool) else None for P_ in ex.run_closure(clo, args=[rec], this_path=fr.this)}
             return next(iter(rets)) if len(rets) == 1 else None
@@ -395,9 +405,15 @@ class ResourceAnalysis:
         ext = [e for e in pre if e[0] == 'write' and e[2][0][0] == 'f' and len(e[2][0][1]) >= 2 and e[2][0][1][-2] in ('@back', '@front')]
         want_ext = (not v['QE']) and v['t'] == 'Read' and v['back'] == 'Read'
         nxt_at_enqueue = Lin.sym('next') + Lin.const(1)
+        count_repr = ResDomain.entry_repr == 'count'
+        # entries that hold a count: the bound the entry stands for is (bound of its predecessor, = the ticket counter on entry by
+        # next == bound + sum of counts) + count; a stored count c in a new entry is the bound next + c, back.cnt + d the bound next + d
+        def as_bound(x, extend):
+            if not count_repr or not isinstance(x, Lin): return x
+            return (x - Lin.sym('back.cnt') if extend else x) + Lin.sym('next')
         if ext and not qs:
             tgt = ext[0][2][0][1][-2]
-            val = ext[0][2][1]
+            val = as_bound(ext[0][2][1], True)
             ok6 = want_ext and tgt == '@back'
             why = ''
             if tgt != '@back' and v['front'] == v['back']:
@@ -410,6 +426,7 @@ class ResourceAnalysis:
             else:
                 okv = val == nxt_at_enqueue and ext[0][2][0][1][-1] == 'upperBound'
                 self.add('RES.8', okv, f'row {row}: extended bound is the counter after the increment', ext[0][1].shortloc(), '' if okv else f'stored {val}, expected next+1')
+                self.res8x(val, nxt_at_enqueue, row, ext[0][1].shortloc())
             if want_ext: self.add('RES.7', True, f'row {row}: consecutive readers form one batch', ext[0][1].shortloc())
         elif len(qs) == 1 and not ext:
             kind, val = qs[0][2]
@@ -418,13 +435,21 @@ class ResourceAnalysis:
             if not isinstance(val, Record) or not isinstance(val.f.get('upperBound'), Lin):
                 self.unknown('RES.8', f'row {row}', qs[0][1].shortloc(), f'pushed entry {val} not understood')
             else:
-                okrec = val.f.get('type') == E(v['t']) and val.f.get('upperBound') == nxt_at_enqueue
+                okrec = val.f.get('type') == E(v['t']) and as_bound(val.f.get('upperBound'), False) == nxt_at_enqueue
                 self.add('RES.8', okrec, f'row {row}: pushed entry is {{t, next+1}}', qs[0][1].shortloc(), '' if okrec else f'pushed {val}, expected {{type={v["t"]}, upperBound=next+1}}')
+                self.res8x(as_bound(val.f.get('upperBound'), False), nxt_at_enqueue, row, qs[0][1].shortloc())
             self.add('RES.6', True, f'row {row}: push', qs[0][1].shortloc())
             if want_ext:
                 self._res7_separate = getattr(self, '_res7_separate', []) + [(row, qs[0][1].shortloc())]
         else:
             self.add('RES.6', False, f'row {row}: enqueue performs {len(qs)} queue operation(s) and {len(ext)} extension(s)', site, 'a waiting request must be recorded exactly once (a second operation overwrites or duplicates a queued request)')
+
+    def res8x(self, val, want, row, site):
+        """the exclusion half of RES.8: a recorded bound above the counter admits the next ticket together with this batch"""
+        d = (val - want) if isinstance(val, Lin) else None
+        if d is None or d.t: self.unknown('RES.8x', f'row {row}: recorded bound', site, f'recorded bound {val} is not the counter plus a constant'); return
+        self.add('RES.8x', d.c <= 0, f'row {row}: the recorded bound does not exceed the counter after the increment', site,
+                 '' if d.c <= 0 else f'recorded {val}, the counter after the increment is next+1: the request that takes the next ticket is admitted together with this batch (a writer with company)')
 
     # ---- wait predicate ------------------------------------------------------------------------------------------------
     def predicate(self):
@@ -739,6 +764,7 @@ RULE_TEXT = {
     'RES.6': 'enqueue: a request is merged into an existing entry only in the row (queue non-empty, read request, back entry is a read), and only into the back entry',
     'RES.7': 'enqueue: in that row it is merged (consecutive readers form one batch)',
     'RES.8': 'tickets: id is the pre-increment counter captured by value; pushed/extended bound is the counter after the increment; new entries go to the back',
+    'RES.8x': 'tickets (exclusion half of RES.8): the bound recorded for a queued request does not exceed the counter after the increment',
     'RES.9': 'wait predicate is exactly id < bound on the three orderings; predicate form of wait on the monitor mutex',
     'RES.10': 'a new bound is accompanied by notify_all() (not notify_one) inside or after the critical section',
     'RES.11': 'the only decreasing writes to tickets/bound are the paired resets in select() on an empty queue at count 0',
@@ -754,6 +780,10 @@ def analyse(facts, rep):
     if key not in _cache:
         import roles
         fm, entry, fnm, why = roles.infer_resource(facts, CLS)
+        ResDomain.entry_repr = entry[2] if fm is not None else 'bound'
+        if fm is not None and entry[2] == 'count':
+            rep.assume('queue entries hold the number of requests of the batch, not the ticket bound: read through ub_k = bound + sum_{i<=k} count_i '
+                       '(front.count = front.ub - bound; a stored count is judged as the bound it stands for)')
         if fm is not None and not roles.is_identity(fm, entry[1], fnm):
             ren = {k: v for m in (fm, entry[1], fnm) for k, v in m.items() if k != v}
             facts = roles.renamed_facts(facts, facts.dir, CLS, fm, entry, fnm)
